@@ -5,37 +5,877 @@ import FmpRpc.Model.Frame
   produces legal encodings, typed readers accept every legal width.
 -/
 namespace FmpRpc
+set_option linter.unusedSimpArgs false
+open Prog
+theorem classify_ofNat (n : Nat) (h : n < 256) : classify (UInt8.ofNat n) = classifyNat n := by
+  simp [classify, UInt8.toNat_ofNat', Nat.mod_eq_of_lt h]
 
-theorem decValue_legal (v : Value) (bs : Bytes) (h : LegalEnc v bs) (fuel : Nat)
-    (hf : v.depth ≤ fuel) (r : Bytes) :
-    runStream (decValue fuel) (bs ++ r) = ⟨.ok v, r⟩ := by
-  sorry
+theorem classifyNat_posfix (n : Nat) (h : n < 128) : classifyNat n = .posfix n := by
+  simp [classifyNat, h]
+theorem classifyNat_negfix (n : Nat) (h : 224 ≤ n) : classifyNat n = .negfix ((n : Int) - 256) := by
+  unfold classifyNat
+  repeat rw [if_neg (by omega)]
+theorem sintOf_enc (w : Nat) (i : Int) (hw : w = 1 ∨ w = 2 ∨ w = 4 ∨ w = 8)
+    (h : -((256 ^ w / 2 : Nat) : Int) ≤ i ∧ i < ((256 ^ w / 2 : Nat) : Int)) :
+    sintOf w (beBytes w (i % ((256 ^ w : Nat) : Int)).toNat) = i := by
+  unfold sintOf
+  rcases hw with rfl | rfl | rfl | rfl <;>
+  · rw [beNat_beBytes _ _ (by simp at h ⊢; omega)]
+    simp at h ⊢
+    split <;> omega
+@[simp] theorem runStream_ret (a : α) (s : Bytes) : runStream (.ret a) s = ⟨.ok a, s⟩ := by
+  simp [runStream]
+@[simp] theorem runStream_readn1_cons (k : UInt8 → Prog α) (b : UInt8) (s : Bytes) :
+    runStream (.readn1 k) (b :: s) = runStream (k b) s := by
+  simp [runStream]
 
-theorem enc_legal (v : Value) (hw : v.wf = true) (hr : v.rt = true) : LegalEnc v (enc v) := by
-  sorry
+theorem runStream_readx (n : Nat) (k : Bytes → Prog α) (bs r : Bytes) (h : bs.length = n) :
+    runStream (.readx n k) (bs ++ r) = runStream (k bs) r := by
+  subst h
+  rw [runStream]
+  split
+  · next h0 =>
+    have : bs = [] := List.eq_nil_of_length_eq_zero h0
+    subst this; simp
+  · simp
 
-theorem legal_depth_le (v : Value) (bs : Bytes) (h : LegalEnc v bs) : v.depth ≤ bs.length := by
-  sorry
+theorem uintTag_cases {w : Nat} {t : UInt8} (h : uintTag w = some t) :
+    (w = 1 ∧ t = 0xcc) ∨ (w = 2 ∧ t = 0xcd) ∨ (w = 4 ∧ t = 0xce) ∨ (w = 8 ∧ t = 0xcf) := by
+  unfold uintTag at h
+  split at h <;> simp_all
+theorem sintTag_cases {w : Nat} {t : UInt8} (h : sintTag w = some t) :
+    (w = 1 ∧ t = 0xd0) ∨ (w = 2 ∧ t = 0xd1) ∨ (w = 4 ∧ t = 0xd2) ∨ (w = 8 ∧ t = 0xd3) := by
+  unfold sintTag at h
+  split at h <;> simp_all
+
+theorem classify_uint {w : Nat} {t : UInt8} (h : uintTag w = some t) : classify t = .uint w := by
+  rcases uintTag_cases h with ⟨rfl, rfl⟩ | ⟨rfl, rfl⟩ | ⟨rfl, rfl⟩ | ⟨rfl, rfl⟩ <;> decide
+theorem classify_sint {w : Nat} {t : UInt8} (h : sintTag w = some t) : classify t = .sint w := by
+  rcases sintTag_cases h with ⟨rfl, rfl⟩ | ⟨rfl, rfl⟩ | ⟨rfl, rfl⟩ | ⟨rfl, rfl⟩ <;> decide
+
+theorem decIntBits_legal (bits : Nat) (i : Int) (bs : Bytes) (h : IntEnc i bs)
+    (hlo : -(2 ^ (bits - 1) : Int) ≤ i) (hhi : i < (2 ^ (bits - 1) : Int))
+    (h63 : i < 9223372036854775808) (r : Bytes) :
+    runStream (decIntBits bits) (bs ++ r) = ⟨.ok i, r⟩ := by
+  cases h with
+  | posfix n h =>
+    simp only [decIntBits, List.cons_append, List.nil_append, runStream_readn1_cons]
+    rw [classify_ofNat n (by omega), classifyNat_posfix n h]
+    simp [hlo, hhi]
+  | negfix i h =>
+    simp only [decIntBits, List.cons_append, List.nil_append, runStream_readn1_cons]
+    rw [classify_ofNat _ (by omega), classifyNat_negfix _ (by omega)]
+    have : ((i + 256).toNat : Int) - 256 = i := by omega
+    rw [this]
+    simp [hlo, hhi]
+  | uint w t ht n h =>
+    simp only [decIntBits, List.cons_append, runStream_readn1_cons]
+    rw [classify_uint ht]
+    simp only
+    rw [runStream_readx _ _ _ _ (beBytes_length _ _), beNat_beBytes _ _ h]
+    have : n < 2 ^ 63 := by omega
+    simp [this, hlo, hhi]
+  | sint w t ht i h =>
+    simp only [decIntBits, List.cons_append, runStream_readn1_cons]
+    rw [classify_sint ht]
+    simp only
+    rw [runStream_readx _ _ _ _ (beBytes_length _ _), sintOf_enc _ _ _ h]
+    · simp [hlo, hhi]
+    · rcases sintTag_cases ht with ⟨rfl, rfl⟩ | ⟨rfl, rfl⟩ | ⟨rfl, rfl⟩ | ⟨rfl, rfl⟩ <;> simp
 
 theorem decInt_legal (i : Int) (bs : Bytes) (h : IntEnc i bs)
     (hr : -9223372036854775808 ≤ i ∧ i < 9223372036854775808) (r : Bytes) :
     runStream decInt (bs ++ r) = ⟨.ok i, r⟩ := by
-  sorry
+  exact decIntBits_legal 64 i bs h (by simp; omega) (by simp; omega) hr.2 r
 
 theorem decInt32_legal (i : Int) (bs : Bytes) (h : IntEnc i bs)
     (hr : -2147483648 ≤ i ∧ i < 2147483648) (r : Bytes) :
     runStream (decIntBits 32) (bs ++ r) = ⟨.ok i, r⟩ := by
-  sorry
+  exact decIntBits_legal 32 i bs h (by simp; omega) (by simp; omega) (by omega) r
 
-theorem decStr_legal (s hd : Bytes) (h : StrHdr s.length hd) (r : Bytes) :
-    runStream decStr (hd ++ s ++ r) = ⟨.ok s, r⟩ := by
-  sorry
+theorem classifyNat_fixmap (l : Nat) (h : l < 16) : classifyNat (0x80 + l) = .fixmap l := by
+  have h1 : ¬ (128 + l < 128) := by omega
+  have h2 : 128 + l < 144 := by omega
+  simp [classifyNat, h2]
 
-/-- A program that succeeds on the unbounded stream succeeds identically
-    under any budget that covers what it consumed. -/
+theorem classifyNat_fixarr (l : Nat) (h : l < 16) : classifyNat (0x90 + l) = .fixarr l := by
+  have h1 : ¬ (144 + l < 128) := by omega
+  have h2 : ¬ (144 + l < 144) := by omega
+  have h3 : 144 + l < 160 := by omega
+  simp [classifyNat, h1, h3]
+
+theorem classifyNat_fixstr (l : Nat) (h : l < 32) : classifyNat (0xa0 + l) = .fixstr l := by
+  have h1 : ¬ (160 + l < 128) := by omega
+  have h2 : ¬ (160 + l < 144) := by omega
+  have h3 : ¬ (160 + l < 160) := by omega
+  have h4 : 160 + l < 192 := by omega
+  simp [classifyNat, h1, h2, h4]
+
+
+theorem runStream_bind (p : Prog α) (f : α → Prog β) (s : Bytes) (a : α) (rest : Bytes)
+    (h : runStream p s = ⟨.ok a, rest⟩) : runStream (Prog.bind p f) s = runStream (f a) rest := by
+  induction p generalizing s with
+  | ret x => simp [runStream] at h; simp [h]
+  | fail e => simp [runStream] at h
+  | readn1 k ih =>
+    cases s with
+    | nil => simp [runStream] at h
+    | cons b s => simp at h ⊢; exact ih b s h
+  | readx n k ih =>
+    simp only [bind_readx]
+    rw [runStream] at h ⊢
+    split
+    · next h0 => rw [if_pos h0] at h; exact ih _ _ h
+    · next h0 =>
+      rw [if_neg h0] at h
+      split
+      · next h1 => rw [if_pos h1] at h; exact ih _ _ h
+      · next h1 => rw [if_neg h1] at h; simp at h
+
+
+theorem IntEnc.length_pos {i : Int} {bs : Bytes} (h : IntEnc i bs) : 1 ≤ bs.length := by
+  cases h <;> simp
+theorem StrHdr.length_pos {l : Nat} {bs : Bytes} (h : StrHdr l bs) : 1 ≤ bs.length := by
+  cases h <;> simp
+theorem BinHdr.length_pos {l : Nat} {bs : Bytes} (h : BinHdr l bs) : 1 ≤ bs.length := by
+  cases h <;> simp
+theorem ArrHdr.length_pos {l : Nat} {bs : Bytes} (h : ArrHdr l bs) : 1 ≤ bs.length := by
+  cases h <;> simp
+theorem MapHdr.length_pos {l : Nat} {bs : Bytes} (h : MapHdr l bs) : 1 ≤ bs.length := by
+  cases h <;> simp
+
+mutual
+theorem legal_depth_le : ∀ (v : Value) (bs : Bytes), LegalEnc v bs → v.depth ≤ bs.length
+  | _, _, .nil => by simp [Value.depth]
+  | _, _, .fls => by simp [Value.depth]
+  | _, _, .tru => by simp [Value.depth]
+  | _, _, .int i bs h => by have := h.length_pos; simpa [Value.depth]
+  | _, _, .f32 b h => by simp [Value.depth]
+  | _, _, .f64 b h => by simp [Value.depth]
+  | _, _, .str s hd h => by have := h.length_pos; simp [Value.depth]; omega
+  | _, _, .bin s hd h => by have := h.length_pos; simp [Value.depth]; omega
+  | _, _, .arr vs hd body h hb => by
+      have := h.length_pos; have := legalList_depth_le vs body hb
+      simp [Value.depth]; omega
+  | _, _, .map kvs hd body h hb => by
+      have := h.length_pos; have := legalPairs_depth_le kvs body hb
+      simp [Value.depth]; omega
+theorem legalList_depth_le : ∀ (vs : List Value) (bs : Bytes), LegalEncList vs bs → depthList vs ≤ bs.length
+  | _, _, .nil => by simp [depthList]
+  | _, _, .cons v vs b bs h t => by
+      have := legal_depth_le v b h; have := legalList_depth_le vs bs t
+      simp [depthList]; omega
+theorem legalPairs_depth_le : ∀ (kvs : List (Value × Value)) (bs : Bytes), LegalEncPairs kvs bs → depthPairs kvs ≤ bs.length
+  | _, _, .nil => by simp [depthPairs]
+  | _, _, .cons k v r bk bv bs hk _ hv t => by
+      have := legal_depth_le k bk hk; have := legal_depth_le v bv hv
+      have := legalPairs_depth_le r bs t
+      simp [depthPairs]; omega
+end
+
+@[simp] theorem classify_c0 : classify 0xc0 = .nil := by decide
+@[simp] theorem classify_c2 : classify 0xc2 = .fls := by decide
+@[simp] theorem classify_c3 : classify 0xc3 = .tru := by decide
+@[simp] theorem classify_c4 : classify 0xc4 = .binN 1 := by decide
+@[simp] theorem classify_c5 : classify 0xc5 = .binN 2 := by decide
+@[simp] theorem classify_c6 : classify 0xc6 = .binN 4 := by decide
+@[simp] theorem classify_ca : classify 0xca = .f32 := by decide
+@[simp] theorem classify_cb : classify 0xcb = .f64 := by decide
+@[simp] theorem classify_cc : classify 0xcc = .uint 1 := by decide
+@[simp] theorem classify_cd : classify 0xcd = .uint 2 := by decide
+@[simp] theorem classify_ce : classify 0xce = .uint 4 := by decide
+@[simp] theorem classify_cf : classify 0xcf = .uint 8 := by decide
+@[simp] theorem classify_d9 : classify 0xd9 = .strN 1 := by decide
+@[simp] theorem classify_da : classify 0xda = .strN 2 := by decide
+@[simp] theorem classify_db : classify 0xdb = .strN 4 := by decide
+@[simp] theorem classify_dc : classify 0xdc = .arrN 2 := by decide
+@[simp] theorem classify_dd : classify 0xdd = .arrN 4 := by decide
+@[simp] theorem classify_de : classify 0xde = .mapN 2 := by decide
+@[simp] theorem classify_df : classify 0xdf = .mapN 4 := by decide
+
+theorem classify_fixstr (l : Nat) (h : l < 32) : classify (UInt8.ofNat (0xa0 + l)) = .fixstr l := by
+  rw [classify_ofNat _ (by omega), classifyNat_fixstr l h]
+theorem classify_fixarr (l : Nat) (h : l < 16) : classify (UInt8.ofNat (0x90 + l)) = .fixarr l := by
+  rw [classify_ofNat _ (by omega), classifyNat_fixarr l h]
+theorem classify_fixmap (l : Nat) (h : l < 16) : classify (UInt8.ofNat (0x80 + l)) = .fixmap l := by
+  rw [classify_ofNat _ (by omega), classifyNat_fixmap l h]
+
+theorem Value.depth_pos (v : Value) : 1 ≤ v.depth := by
+  cases v <;> simp [Value.depth]
+
+theorem decValue_int (i : Int) (bs : Bytes) (h : IntEnc i bs) (f : Nat) (r : Bytes) :
+    runStream (decValue (f + 1)) (bs ++ r) = ⟨.ok (.int i), r⟩ := by
+  cases h with
+  | posfix n h =>
+    simp only [decValue, List.cons_append, List.nil_append, runStream_readn1_cons]
+    rw [classify_ofNat n (by omega), classifyNat_posfix n h]
+    simp
+  | negfix i h =>
+    simp only [decValue, List.cons_append, List.nil_append, runStream_readn1_cons]
+    rw [classify_ofNat _ (by omega), classifyNat_negfix _ (by omega)]
+    have : ((i + 256).toNat : Int) - 256 = i := by omega
+    rw [this]
+    simp
+  | uint w t ht n h =>
+    simp only [decValue, List.cons_append, runStream_readn1_cons]
+    rw [classify_uint ht]
+    simp only
+    rw [runStream_readx _ _ _ _ (beBytes_length _ _), beNat_beBytes _ _ h]
+    simp
+  | sint w t ht i h =>
+    simp only [decValue, List.cons_append, runStream_readn1_cons]
+    rw [classify_sint ht]
+    simp only
+    rw [runStream_readx _ _ _ _ (beBytes_length _ _), sintOf_enc _ _ _ h]
+    · simp
+    · rcases sintTag_cases ht with ⟨rfl, rfl⟩ | ⟨rfl, rfl⟩ | ⟨rfl, rfl⟩ | ⟨rfl, rfl⟩ <;> simp
+
+theorem decValue_str (s hd : Bytes) (l : Nat) (h : StrHdr l hd) (hl : s.length = l) (f : Nat) (r : Bytes) :
+    runStream (decValue (f + 1)) (hd ++ s ++ r) = ⟨.ok (.str s), r⟩ := by
+  cases h with
+  | fix h =>
+    simp only [decValue, List.cons_append, List.nil_append, runStream_readn1_cons, List.append_assoc]
+    rw [classify_fixstr l h]
+    simp only
+    rw [runStream_readx _ _ _ _ hl]; simp
+  | s8 h =>
+    simp only [decValue, List.cons_append, List.nil_append, runStream_readn1_cons, List.append_assoc, classify_d9]
+    rw [runStream_readx _ _ _ _ (beBytes_length _ _), beNat_beBytes _ _ (by simpa using h), runStream_readx _ _ _ _ hl]; simp
+  | s16 h =>
+    simp only [decValue, List.cons_append, List.nil_append, runStream_readn1_cons, List.append_assoc, classify_da]
+    rw [runStream_readx _ _ _ _ (beBytes_length _ _), beNat_beBytes _ _ (by simpa using h), runStream_readx _ _ _ _ hl]; simp
+  | s32 h =>
+    simp only [decValue, List.cons_append, List.nil_append, runStream_readn1_cons, List.append_assoc, classify_db]
+    rw [runStream_readx _ _ _ _ (beBytes_length _ _), beNat_beBytes _ _ (by simpa using h), runStream_readx _ _ _ _ hl]; simp
+
+theorem decValue_bin (s hd : Bytes) (l : Nat) (h : BinHdr l hd) (hl : s.length = l) (f : Nat) (r : Bytes) :
+    runStream (decValue (f + 1)) (hd ++ s ++ r) = ⟨.ok (.bin s), r⟩ := by
+  cases h with
+  | b8 h =>
+    simp only [decValue, List.cons_append, List.nil_append, runStream_readn1_cons, List.append_assoc, classify_c4]
+    rw [runStream_readx _ _ _ _ (beBytes_length _ _), beNat_beBytes _ _ (by simpa using h), runStream_readx _ _ _ _ hl]; simp
+  | b16 h =>
+    simp only [decValue, List.cons_append, List.nil_append, runStream_readn1_cons, List.append_assoc, classify_c5]
+    rw [runStream_readx _ _ _ _ (beBytes_length _ _), beNat_beBytes _ _ (by simpa using h), runStream_readx _ _ _ _ hl]; simp
+  | b32 h =>
+    simp only [decValue, List.cons_append, List.nil_append, runStream_readn1_cons, List.append_assoc, classify_c6]
+    rw [runStream_readx _ _ _ _ (beBytes_length _ _), beNat_beBytes _ _ (by simpa using h), runStream_readx _ _ _ _ hl]; simp
+
+theorem decValue_arr_hdr (l : Nat) (hd : Bytes) (h : ArrHdr l hd) (f : Nat) (rest : Bytes) :
+    runStream (decValue (f + 1)) (hd ++ rest) =
+      runStream (Prog.bind (repeatN (decValue f) l) fun vs => ret (.arr vs)) rest := by
+  cases h with
+  | fix h =>
+    simp only [decValue, List.cons_append, List.nil_append, runStream_readn1_cons]
+    rw [classify_fixarr l h]
+  | a16 h =>
+    simp only [decValue, List.cons_append, List.nil_append, runStream_readn1_cons, classify_dc]
+    rw [runStream_readx _ _ _ _ (beBytes_length _ _), beNat_beBytes _ _ (by simpa using h)]
+  | a32 h =>
+    simp only [decValue, List.cons_append, List.nil_append, runStream_readn1_cons, classify_dd]
+    rw [runStream_readx _ _ _ _ (beBytes_length _ _), beNat_beBytes _ _ (by simpa using h)]
+
+theorem decValue_map_hdr (l : Nat) (hd : Bytes) (h : MapHdr l hd) (f : Nat) (rest : Bytes) :
+    runStream (decValue (f + 1)) (hd ++ rest) =
+      runStream (Prog.bind (repeatN (pairOf (decValue f)) l) fun kvs => ret (.map kvs)) rest := by
+  cases h with
+  | fix h =>
+    simp only [decValue, List.cons_append, List.nil_append, runStream_readn1_cons]
+    rw [classify_fixmap l h]
+  | m16 h =>
+    simp only [decValue, List.cons_append, List.nil_append, runStream_readn1_cons, classify_de]
+    rw [runStream_readx _ _ _ _ (beBytes_length _ _), beNat_beBytes _ _ (by simpa using h)]
+  | m32 h =>
+    simp only [decValue, List.cons_append, List.nil_append, runStream_readn1_cons, classify_df]
+    rw [runStream_readx _ _ _ _ (beBytes_length _ _), beNat_beBytes _ _ (by simpa using h)]
+
+theorem pairOf_ok (p : Prog Value) (s s1 s2 : Bytes) (k v : Value)
+    (hk : runStream p s = ⟨.ok k, s1⟩) (hh : k.hashable = true)
+    (hv : runStream p s1 = ⟨.ok v, s2⟩) : runStream (pairOf p) s = ⟨.ok (k, v), s2⟩ := by
+  unfold pairOf
+  rw [runStream_bind _ _ _ _ _ hk]
+  simp only [hh, if_true]
+  rw [runStream_bind _ _ _ _ _ hv]; simp
+
+theorem exists_succ_of_pos {n : Nat} (h : 1 ≤ n) : ∃ f, n = f + 1 := ⟨n - 1, by omega⟩
+
+mutual
+theorem decValue_legal : ∀ (v : Value) (bs : Bytes), LegalEnc v bs → ∀ (fuel : Nat),
+    v.depth ≤ fuel → ∀ (r : Bytes), runStream (decValue fuel) (bs ++ r) = ⟨.ok v, r⟩
+  | _, _, .nil, fuel, hf, r => by
+      obtain ⟨f, rfl⟩ := exists_succ_of_pos (Nat.le_trans (Value.depth_pos _) hf)
+      simp [decValue]
+  | _, _, .fls, fuel, hf, r => by
+      obtain ⟨f, rfl⟩ := exists_succ_of_pos (Nat.le_trans (Value.depth_pos _) hf)
+      simp [decValue]
+  | _, _, .tru, fuel, hf, r => by
+      obtain ⟨f, rfl⟩ := exists_succ_of_pos (Nat.le_trans (Value.depth_pos _) hf)
+      simp [decValue]
+  | _, _, .int i bs h, fuel, hf, r => by
+      obtain ⟨f, rfl⟩ := exists_succ_of_pos (Nat.le_trans (Value.depth_pos _) hf)
+      exact decValue_int i bs h f r
+  | _, _, .f32 b h, fuel, hf, r => by
+      obtain ⟨f, rfl⟩ := exists_succ_of_pos (Nat.le_trans (Value.depth_pos _) hf)
+      simp only [decValue, List.cons_append, runStream_readn1_cons, classify_ca]
+      rw [runStream_readx _ _ _ _ (beBytes_length _ _), beNat_beBytes _ _ (by simpa using h)]; simp
+  | _, _, .f64 b h, fuel, hf, r => by
+      obtain ⟨f, rfl⟩ := exists_succ_of_pos (Nat.le_trans (Value.depth_pos _) hf)
+      simp only [decValue, List.cons_append, runStream_readn1_cons, classify_cb]
+      rw [runStream_readx _ _ _ _ (beBytes_length _ _), beNat_beBytes _ _ (by simpa using h)]; simp
+  | _, _, .str s hd h, fuel, hf, r => by
+      obtain ⟨f, rfl⟩ := exists_succ_of_pos (Nat.le_trans (Value.depth_pos _) hf)
+      exact decValue_str s hd _ h rfl f r
+  | _, _, .bin s hd h, fuel, hf, r => by
+      obtain ⟨f, rfl⟩ := exists_succ_of_pos (Nat.le_trans (Value.depth_pos _) hf)
+      exact decValue_bin s hd _ h rfl f r
+  | _, _, .arr vs hd body h hb, fuel, hf, r => by
+      obtain ⟨f, rfl⟩ := exists_succ_of_pos (Nat.le_trans (Value.depth_pos _) hf)
+      have hf' : depthList vs ≤ f := by simp [Value.depth] at hf; omega
+      rw [List.append_assoc, decValue_arr_hdr _ _ h,
+        runStream_bind _ _ _ _ _ (decList_legal vs body hb f hf' r)]
+      simp
+  | _, _, .map kvs hd body h hb, fuel, hf, r => by
+      obtain ⟨f, rfl⟩ := exists_succ_of_pos (Nat.le_trans (Value.depth_pos _) hf)
+      have hf' : depthPairs kvs ≤ f := by simp [Value.depth] at hf; omega
+      rw [List.append_assoc, decValue_map_hdr _ _ h,
+        runStream_bind _ _ _ _ _ (decPairs_legal kvs body hb f hf' r)]
+      simp
+theorem decList_legal : ∀ (vs : List Value) (bs : Bytes), LegalEncList vs bs → ∀ (fuel : Nat),
+    depthList vs ≤ fuel → ∀ (r : Bytes),
+    runStream (repeatN (decValue fuel) vs.length) (bs ++ r) = ⟨.ok vs, r⟩
+  | _, _, .nil, fuel, hf, r => by simp [repeatN]
+  | _, _, .cons v vs b bs h t, fuel, hf, r => by
+      have h1 : v.depth ≤ fuel := by simp [depthList] at hf; omega
+      have h2 : depthList vs ≤ fuel := by simp [depthList] at hf; omega
+      simp only [List.length_cons, repeatN, List.append_assoc]
+      rw [runStream_bind _ _ _ _ _ (decValue_legal v b h fuel h1 (bs ++ r)),
+        runStream_bind _ _ _ _ _ (decList_legal vs bs t fuel h2 r)]
+      simp
+theorem decPairs_legal : ∀ (kvs : List (Value × Value)) (bs : Bytes), LegalEncPairs kvs bs →
+    ∀ (fuel : Nat), depthPairs kvs ≤ fuel → ∀ (r : Bytes),
+    runStream (repeatN (pairOf (decValue fuel)) kvs.length) (bs ++ r) = ⟨.ok kvs, r⟩
+  | _, _, .nil, fuel, hf, r => by simp [repeatN]
+  | _, _, .cons k v rr bk bv bs hk hkey hv t, fuel, hf, r => by
+      have h1 : k.depth ≤ fuel := by simp [depthPairs] at hf; omega
+      have h2 : v.depth ≤ fuel := by simp [depthPairs] at hf; omega
+      have h3 : depthPairs rr ≤ fuel := by simp [depthPairs] at hf; omega
+      simp only [List.length_cons, repeatN, List.append_assoc]
+      rw [runStream_bind _ _ _ _ _ (pairOf_ok _ _ _ _ _ _
+          (decValue_legal k bk hk fuel h1 (bv ++ (bs ++ r))) hkey
+          (decValue_legal v bv hv fuel h2 (bs ++ r))),
+        runStream_bind _ _ _ _ _ (decPairs_legal rr bs t fuel h3 r)]
+      simp
+end
+
+
+theorem encUint_legal (n : Nat) (h : n < 18446744073709551616) : IntEnc (n : Int) (encUint n) := by
+  unfold encUint
+  split
+  · exact .posfix n ‹_›
+  split
+  · exact .uint 1 0xcc rfl n (by simpa)
+  split
+  · exact .uint 2 0xcd rfl n (by simpa)
+  split
+  · exact .uint 4 0xce rfl n (by simpa)
+  · exact .uint 8 0xcf rfl n (by simpa)
+
+theorem encInt_legal (i : Int) (h : -9223372036854775808 ≤ i ∧ i < 18446744073709551616) :
+    IntEnc i (encInt i) := by
+  unfold encInt
+  split
+  · next h0 =>
+    obtain ⟨n, rfl⟩ := Int.eq_ofNat_of_zero_le h0
+    simp only [Int.toNat_natCast]
+    exact encUint_legal n (by omega)
+  split
+  · exact .negfix i (by omega)
+  split
+  · have e : (i + 256) = i % ((256 ^ 1 : Nat) : Int) := by simp; omega
+    rw [e]; exact .sint 1 0xd0 rfl i (by simp; omega)
+  split
+  · have e : (i + 65536) = i % ((256 ^ 2 : Nat) : Int) := by simp; omega
+    rw [e]; exact .sint 2 0xd1 rfl i (by simp; omega)
+  split
+  · have e : (i + 4294967296) = i % ((256 ^ 4 : Nat) : Int) := by simp; omega
+    rw [e]; exact .sint 4 0xd2 rfl i (by simp; omega)
+  · have e : (i + 18446744073709551616) = i % ((256 ^ 8 : Nat) : Int) := by simp; omega
+    rw [e]; exact .sint 8 0xd3 rfl i (by simp; omega)
+
+theorem strHdr_legal (l : Nat) (h : l < 4294967296) : StrHdr l (strHdr l) := by
+  unfold strHdr
+  split
+  · exact .fix l ‹_›
+  split
+  · exact .s8 l ‹_›
+  split
+  · exact .s16 l ‹_›
+  · exact .s32 l h
+theorem binHdr_legal (l : Nat) (h : l < 4294967296) : BinHdr l (binHdr l) := by
+  unfold binHdr
+  split
+  · exact .b8 l ‹_›
+  split
+  · exact .b16 l ‹_›
+  · exact .b32 l h
+theorem arrHdr_legal (l : Nat) (h : l < 4294967296) : ArrHdr l (arrHdr l) := by
+  unfold arrHdr
+  split
+  · exact .fix l ‹_›
+  split
+  · exact .a16 l ‹_›
+  · exact .a32 l h
+theorem mapHdr_legal (l : Nat) (h : l < 4294967296) : MapHdr l (mapHdr l) := by
+  unfold mapHdr
+  split
+  · exact .fix l ‹_›
+  split
+  · exact .m16 l ‹_›
+  · exact .m32 l h
+
+mutual
+theorem enc_legal : ∀ (v : Value), v.wf = true → v.rt = true → LegalEnc v (enc v)
+  | .nil, _, _ => by simp only [enc]; exact .nil
+  | .bool false, _, _ => by simp only [enc]; exact .fls
+  | .bool true, _, _ => by simp only [enc]; exact .tru
+  | .int i, hw, _ => by
+      simp only [enc]; exact .int i _ (encInt_legal i (by simpa [Value.wf] using hw))
+  | .f32 b, hw, _ => by simp only [enc]; exact .f32 b (by simpa [Value.wf] using hw)
+  | .f64 b, hw, _ => by simp only [enc]; exact .f64 b (by simpa [Value.wf] using hw)
+  | .str s, hw, _ => by
+      simp only [enc]; exact .str s _ (strHdr_legal _ (by simpa [Value.wf] using hw))
+  | .bin s, hw, _ => by
+      simp only [enc]; exact .bin s _ (binHdr_legal _ (by simpa [Value.wf] using hw))
+  | .arr vs, hw, hr => by
+      simp only [Value.wf, Bool.and_eq_true, decide_eq_true_eq] at hw
+      simp only [Value.rt] at hr
+      simp only [enc]
+      exact .arr vs _ _ (arrHdr_legal _ hw.1) (encList_legal vs hw.2 hr)
+  | .map kvs, hw, hr => by
+      simp only [Value.wf, Bool.and_eq_true, decide_eq_true_eq] at hw
+      simp only [Value.rt] at hr
+      simp only [enc]
+      exact .map kvs _ _ (mapHdr_legal _ hw.1) (encPairs_legal kvs hw.2 hr)
+  | .ext t d, _, hr => by simp [Value.rt] at hr
+theorem encList_legal : ∀ (vs : List Value), wfList vs = true → rtList vs = true →
+    LegalEncList vs (encList vs)
+  | [], _, _ => by simp only [encList]; exact .nil
+  | v :: vs, hw, hr => by
+      simp only [wfList, Bool.and_eq_true] at hw
+      simp only [rtList, Bool.and_eq_true] at hr
+      simp only [encList]
+      exact .cons v vs _ _ (enc_legal v hw.1 hr.1) (encList_legal vs hw.2 hr.2)
+theorem encPairs_legal : ∀ (kvs : List (Value × Value)), wfPairs kvs = true → rtPairs kvs = true →
+    LegalEncPairs kvs (encPairs kvs)
+  | [], _, _ => by simp only [encPairs]; exact .nil
+  | (k, v) :: r, hw, hr => by
+      simp only [wfPairs, Bool.and_eq_true] at hw
+      simp only [rtPairs, Bool.and_eq_true] at hr
+      simp only [encPairs]
+      exact .cons k v r _ _ _ (enc_legal k hw.1.1 hr.1.1.2) hr.1.1.1 (enc_legal v hw.1.2 hr.1.2)
+        (encPairs_legal r hw.2 hr.2)
+end
+
+
+theorem runStream_rest_le (p : Prog α) (s : Bytes) : (runStream p s).rest.length ≤ s.length := by
+  induction p generalizing s with
+  | ret x => simp [runStream]
+  | fail e => simp [runStream]
+  | readn1 k ih =>
+    cases s with
+    | nil => simp [runStream]
+    | cons b s => simp only [runStream, List.length_cons]; have := ih b s; omega
+  | readx n k ih =>
+    rw [runStream]
+    split
+    · exact ih _ _
+    split
+    · have := ih (s.take n) (s.drop n); simp at this ⊢; omega
+    · simp
+
 theorem runFrame_of_runStream (p : Prog α) (s : Bytes) (a : α) (rest : Bytes) (rem : Nat)
     (h : runStream p s = ⟨.ok a, rest⟩) (hb : s.length - rest.length ≤ rem) :
     runFrame p rem s = (⟨.ok a, rest⟩, rem - (s.length - rest.length)) := by
-  sorry
+  induction p generalizing s rem with
+  | ret x => simp [runStream] at h; simp [runFrame, h]
+  | fail e => simp [runStream] at h
+  | readn1 k ih =>
+    cases s with
+    | nil => simp [runStream] at h
+    | cons b s =>
+      simp only [runStream] at h
+      have hl := runStream_rest_le (k b) s
+      rw [h] at hl
+      simp only [List.length_cons] at hb hl ⊢
+      rw [runFrame, if_neg (by omega)]
+      rw [ih b s (rem - 1) h (by omega)]
+      congr 1; omega
+  | readx n k ih =>
+    rw [runStream] at h
+    rw [runFrame]
+    split
+    · next h0 => rw [if_pos h0] at h; exact ih _ _ _ h hb
+    · next h0 =>
+      rw [if_neg h0] at h
+      by_cases h1 : n ≤ s.length
+      · rw [if_pos h1] at h
+        have hl := runStream_rest_le (k (s.take n)) (s.drop n)
+        rw [h] at hl
+        simp only [List.length_drop] at hl
+        rw [if_pos (by omega), if_pos h1, ih _ _ (rem - n) h (by simp; omega)]
+        congr 1; simp; omega
+      · rw [if_neg h1] at h; simp at h
+
+theorem decStr_hdr (s hd : Bytes) (l : Nat) (h : StrHdr l hd) (hl : s.length = l) (r : Bytes) :
+    runStream decStr (hd ++ s ++ r) = ⟨.ok s, r⟩ := by
+  cases h with
+  | fix h =>
+    simp only [decStr, List.cons_append, List.nil_append, runStream_readn1_cons, List.append_assoc]
+    rw [classify_fixstr l h]
+    simp only
+    rw [runStream_readx _ _ _ _ hl]; simp
+  | s8 h =>
+    simp only [decStr, List.cons_append, List.nil_append, runStream_readn1_cons, List.append_assoc, classify_d9]
+    rw [runStream_readx _ _ _ _ (beBytes_length _ _), beNat_beBytes _ _ (by simpa using h), runStream_readx _ _ _ _ hl]; simp
+  | s16 h =>
+    simp only [decStr, List.cons_append, List.nil_append, runStream_readn1_cons, List.append_assoc, classify_da]
+    rw [runStream_readx _ _ _ _ (beBytes_length _ _), beNat_beBytes _ _ (by simpa using h), runStream_readx _ _ _ _ hl]; simp
+  | s32 h =>
+    simp only [decStr, List.cons_append, List.nil_append, runStream_readn1_cons, List.append_assoc, classify_db]
+    rw [runStream_readx _ _ _ _ (beBytes_length _ _), beNat_beBytes _ _ (by simpa using h), runStream_readx _ _ _ _ hl]; simp
+
+theorem decStrStrict_hdr (s hd : Bytes) (l : Nat) (h : StrHdr l hd) (hl : s.length = l) (r : Bytes) :
+    runStream decStrStrict (hd ++ s ++ r) = ⟨.ok s, r⟩ := by
+  cases h with
+  | fix h =>
+    simp only [decStrStrict, List.cons_append, List.nil_append, runStream_readn1_cons, List.append_assoc]
+    rw [classify_fixstr l h]
+    simp only
+    rw [runStream_readx _ _ _ _ hl]; simp
+  | s8 h =>
+    simp only [decStrStrict, List.cons_append, List.nil_append, runStream_readn1_cons, List.append_assoc, classify_d9]
+    rw [runStream_readx _ _ _ _ (beBytes_length _ _), beNat_beBytes _ _ (by simpa using h), runStream_readx _ _ _ _ hl]; simp
+  | s16 h =>
+    simp only [decStrStrict, List.cons_append, List.nil_append, runStream_readn1_cons, List.append_assoc, classify_da]
+    rw [runStream_readx _ _ _ _ (beBytes_length _ _), beNat_beBytes _ _ (by simpa using h), runStream_readx _ _ _ _ hl]; simp
+  | s32 h =>
+    simp only [decStrStrict, List.cons_append, List.nil_append, runStream_readn1_cons, List.append_assoc, classify_db]
+    rw [runStream_readx _ _ _ _ (beBytes_length _ _), beNat_beBytes _ _ (by simpa using h), runStream_readx _ _ _ _ hl]; simp
+
+theorem decErrStr_hdr (s hd : Bytes) (l : Nat) (h : StrHdr l hd) (hl : s.length = l) (r : Bytes) :
+    runStream decErrStr (hd ++ s ++ r) = ⟨.ok s, r⟩ := by
+  cases h with
+  | fix h =>
+    simp only [decErrStr, List.cons_append, List.nil_append, runStream_readn1_cons, List.append_assoc]
+    rw [classify_fixstr l h]
+    simp only
+    rw [runStream_readx _ _ _ _ hl]; simp
+  | s8 h =>
+    simp only [decErrStr, List.cons_append, List.nil_append, runStream_readn1_cons, List.append_assoc, classify_d9]
+    rw [runStream_readx _ _ _ _ (beBytes_length _ _), beNat_beBytes _ _ (by simpa using h), runStream_readx _ _ _ _ hl]; simp
+  | s16 h =>
+    simp only [decErrStr, List.cons_append, List.nil_append, runStream_readn1_cons, List.append_assoc, classify_da]
+    rw [runStream_readx _ _ _ _ (beBytes_length _ _), beNat_beBytes _ _ (by simpa using h), runStream_readx _ _ _ _ hl]; simp
+  | s32 h =>
+    simp only [decErrStr, List.cons_append, List.nil_append, runStream_readn1_cons, List.append_assoc, classify_db]
+    rw [runStream_readx _ _ _ _ (beBytes_length _ _), beNat_beBytes _ _ (by simpa using h), runStream_readx _ _ _ _ hl]; simp
+
+theorem decStr_legal (s hd : Bytes) (h : StrHdr s.length hd) (r : Bytes) :
+    runStream decStr (hd ++ s ++ r) = ⟨.ok s, r⟩ := decStr_hdr s hd _ h rfl r
+
+/-! ### Frame level: typed readers on `LegalEnc`, `decodeRPC` on legal element
+    lists, `nextFrame` on a legal frame (used by `C02.frame_accepts_any_legal`). -/
+
+
+theorem legalList_length_le : ∀ (vs : List Value) (bs : Bytes), LegalEncList vs bs → vs.length ≤ bs.length
+  | _, _, .nil => by simp
+  | _, _, .cons v vs b bs h t => by
+      have := legal_depth_le v b h; have := Value.depth_pos v
+      have := legalList_length_le vs bs t
+      simp; omega
+
+theorem legalList_append_inv (xs ys : List Value) (b : Bytes) (h : LegalEncList (xs ++ ys) b) :
+    ∃ b1 b2, b = b1 ++ b2 ∧ LegalEncList xs b1 ∧ LegalEncList ys b2 := by
+  induction xs generalizing b with
+  | nil => exact ⟨[], b, rfl, .nil, h⟩
+  | cons x xs ih =>
+    cases h with
+    | cons v vs bx bs hx t =>
+      obtain ⟨b1, b2, rfl, h1, h2⟩ := ih bs t
+      exact ⟨bx ++ b1, b2, by simp, .cons _ _ _ _ hx h1, h2⟩
+
+theorem decInt_of_legal (i : Int) (b : Bytes) (h : LegalEnc (.int i) b)
+    (hr : -9223372036854775808 ≤ i ∧ i < 9223372036854775808) (r : Bytes) :
+    runStream decInt (b ++ r) = ⟨.ok i, r⟩ := by
+  cases h with
+  | int i bs h => exact decInt_legal i b h hr r
+
+theorem decStr_of_legal (s b : Bytes) (h : LegalEnc (.str s) b) (r : Bytes) :
+    runStream decStr (b ++ r) = ⟨.ok s, r⟩ := by
+  cases h with
+  | str s hd h => exact decStr_hdr s hd _ h rfl r
+
+theorem decStrStrict_of_legal (s b : Bytes) (h : LegalEnc (.str s) b) (r : Bytes) :
+    runStream decStrStrict (b ++ r) = ⟨.ok s, r⟩ := by
+  cases h with
+  | str s hd h => exact decStrStrict_hdr s hd _ h rfl r
+
+theorem decErrStr_of_legal (s b : Bytes) (h : LegalEnc (.str s) b) (r : Bytes) :
+    runStream decErrStr (b ++ r) = ⟨.ok s, r⟩ := by
+  cases h with
+  | str s hd h => exact decErrStr_hdr s hd _ h rfl r
+
+theorem decValue_of_legal (v : Value) (b : Bytes) (h : LegalEnc v b) (fuel : Nat)
+    (hf : b.length ≤ fuel) (r : Bytes) :
+    runStream (decValue fuel) (b ++ r) = ⟨.ok v, r⟩ :=
+  decValue_legal v b h fuel (Nat.le_trans (legal_depth_le v b h) hf) r
+
+/-- one entry of the tag map -/
+def tagEntry (fuel : Nat) : Prog (Bytes × Value) :=
+  Prog.bind decStrStrict fun k => Prog.bind (decValue fuel) fun v => ret (k, v)
+
+theorem tagEntry_ok (fuel : Nat) (s s1 s2 : Bytes) (k : Bytes) (v : Value)
+    (hk : runStream decStrStrict s = ⟨.ok k, s1⟩)
+    (hv : runStream (decValue fuel) s1 = ⟨.ok v, s2⟩) :
+    runStream (tagEntry fuel) s = ⟨.ok (k, v), s2⟩ := by
+  unfold tagEntry
+  rw [runStream_bind _ _ _ _ _ hk, runStream_bind _ _ _ _ _ hv]; simp
+
+theorem decTags_map_hdr (l : Nat) (hd : Bytes) (h : MapHdr l hd) (fuel : Nat) (rest : Bytes) :
+    runStream (decTags fuel) (hd ++ rest) = runStream (repeatN (tagEntry fuel) l) rest := by
+  cases h with
+  | fix h =>
+    simp only [decTags, List.cons_append, List.nil_append, runStream_readn1_cons]
+    rw [classify_fixmap l h]; rfl
+  | m16 h =>
+    simp only [decTags, List.cons_append, List.nil_append, runStream_readn1_cons, classify_de]
+    rw [runStream_readx _ _ _ _ (beBytes_length _ _), beNat_beBytes _ _ (by simpa using h)]; rfl
+  | m32 h =>
+    simp only [decTags, List.cons_append, List.nil_append, runStream_readn1_cons, classify_df]
+    rw [runStream_readx _ _ _ _ (beBytes_length _ _), beNat_beBytes _ _ (by simpa using h)]; rfl
+
+theorem tagEntries_legal (t : Tags) (b : Bytes)
+    (h : LegalEncPairs (t.map fun (k, v) => (Value.str k, v)) b) (fuel : Nat)
+    (hf : b.length ≤ fuel) (r : Bytes) :
+    runStream (repeatN (tagEntry fuel) t.length) (b ++ r) = ⟨.ok t, r⟩ := by
+  induction t generalizing b with
+  | nil => cases h; simp [repeatN]
+  | cons kv t ih =>
+    obtain ⟨k, v⟩ := kv
+    simp only [List.map_cons] at h
+    cases h with
+    | cons _ _ _ bk bv bs hk hkey hv ht =>
+      simp only [List.length_append] at hf
+      simp only [List.length_cons, repeatN, List.append_assoc]
+      rw [runStream_bind _ _ _ _ _ (tagEntry_ok fuel _ _ _ k v (decStrStrict_of_legal k bk hk _)
+          (decValue_of_legal v bv hv fuel (by omega) _)),
+        runStream_bind _ _ _ _ _ (ih bs ht (by omega) )]
+      simp
+
+theorem decTags_of_legal (t : Tags) (b : Bytes) (h : LegalEnc (tagsValue t) b) (fuel : Nat)
+    (hf : b.length ≤ fuel) (r : Bytes) :
+    runStream (decTags fuel) (b ++ r) = ⟨.ok t, r⟩ := by
+  unfold tagsValue at h
+  cases h with
+  | map kvs hd body h hb =>
+    simp only [List.length_map] at h
+    simp only [List.length_append] at hf
+    rw [List.append_assoc, decTags_map_hdr _ _ h, tagEntries_legal t body hb fuel (by omega) r]
+
+/-- the optional trailing tag map as an independent encoder sends it -/
+def tagElems : Option Tags → List Value
+  | none => []
+  | some t => [tagsValue t]
+
+theorem loadContext_legal (fuel extra : Nat) (tags : Option Tags) (b rest : Bytes)
+    (hl : LegalEncList (tagElems tags) b) (hf : b.length ≤ fuel)
+    (h0 : tags = none → extra = 0) (h1 : tags ≠ none → extra ≠ 0) :
+    runStream (loadContext fuel extra) (b ++ rest) = ⟨.ok tags, rest⟩ := by
+  cases tags with
+  | none =>
+    cases hl
+    simp [loadContext, h0 rfl]
+  | some t =>
+    simp only [tagElems] at hl
+    cases hl with
+    | cons _ _ bt _ ht hn =>
+      cases hn
+      simp only [List.append_nil] at hf ⊢
+      unfold loadContext
+      rw [if_neg (h1 (by simp)), runStream_bind _ _ _ _ _ (decTags_of_legal t bt ht fuel hf rest)]
+      simp
+
+theorem decodeRPC_call (ctx : Ctx) (fuel l : Nat) (seq : Int) (name : Bytes) (arg : Value)
+    (tags : Option Tags) (b rest : Bytes)
+    (hl : LegalEncList (.int 0 :: .int seq :: .str name :: arg :: tagElems tags) b)
+    (hf : b.length ≤ fuel) (hfind : findMethod ctx name = .ok ())
+    (hseq : -9223372036854775808 ≤ seq ∧ seq < 9223372036854775808)
+    (hl4 : 4 ≤ l) (h0 : tags = none → l = 4) (h1 : tags ≠ none → 5 ≤ l) :
+    runStream (decodeRPC ctx fuel l) (b ++ rest) = ⟨.ok (.ok (.call seq name arg tags)), rest⟩ := by
+  cases hl with
+  | cons _ _ b0 _ e0 hl =>
+  cases hl with
+  | cons _ _ b1 _ e1 hl =>
+  cases hl with
+  | cons _ _ b2 _ e2 hl =>
+  cases hl with
+  | cons _ _ b3 bt e3 hl =>
+  simp only [List.length_append] at hf
+  simp only [List.append_assoc]
+  unfold decodeRPC
+  rw [runStream_bind _ _ _ _ _ (decInt_of_legal 0 b0 e0 (by omega) _)]
+  simp only [Gen.methodCall, if_true]
+  rw [if_neg (by omega), runStream_bind _ _ _ _ _ (decInt_of_legal seq b1 e1 hseq _),
+    runStream_bind _ _ _ _ _ (decStr_of_legal name b2 e2 _)]
+  simp only [hfind]
+  rw [runStream_bind _ _ _ _ _ (decValue_of_legal arg b3 e3 fuel (by omega) _),
+    runStream_bind _ _ _ _ _ (loadContext_legal fuel (l - 1 - 3) tags bt rest hl (by omega)
+      (fun h => by have := h0 h; omega) (fun h => by have := h1 h; omega))]
+  simp
+
+theorem decodeMaybeCompressed_none (ctx : Ctx) (fuel : Nat) (ct : Int) (ek : Option Value)
+    (hc : hasCompressor ct = false) : decodeMaybeCompressed ctx fuel ct ek = decValue fuel := by
+  simp [decodeMaybeCompressed, hc]
+
+theorem decodeRPC_callc (ctx : Ctx) (fuel l : Nat) (seq ct : Int) (name : Bytes) (arg : Value)
+    (tags : Option Tags) (b rest : Bytes)
+    (hl : LegalEncList (.int 4 :: .int seq :: .int ct :: .str name :: arg :: tagElems tags) b)
+    (hf : b.length ≤ fuel) (hfind : findMethod ctx name = .ok ())
+    (hc : hasCompressor ct = false)
+    (hseq : -9223372036854775808 ≤ seq ∧ seq < 9223372036854775808)
+    (hct : -9223372036854775808 ≤ ct ∧ ct < 9223372036854775808)
+    (hl5 : 5 ≤ l) (h0 : tags = none → l = 5) (h1 : tags ≠ none → 6 ≤ l) :
+    runStream (decodeRPC ctx fuel l) (b ++ rest) =
+      ⟨.ok (.ok (.callc seq ct name arg tags)), rest⟩ := by
+  cases hl with
+  | cons _ _ b0 _ e0 hl =>
+  cases hl with
+  | cons _ _ b1 _ e1 hl =>
+  cases hl with
+  | cons _ _ b2 _ e2 hl =>
+  cases hl with
+  | cons _ _ b3 _ e3 hl =>
+  cases hl with
+  | cons _ _ b4 bt e4 hl =>
+  simp only [List.length_append] at hf
+  simp only [List.append_assoc]
+  unfold decodeRPC
+  rw [runStream_bind _ _ _ _ _ (decInt_of_legal 4 b0 e0 (by omega) _)]
+  simp only [Gen.methodCall, Gen.methodResponse, Gen.methodNotify, Gen.methodCancel,
+    Gen.methodCallCompressed, Int.reduceEq, if_true, if_false]
+  rw [if_neg (by omega), runStream_bind _ _ _ _ _ (decInt_of_legal seq b1 e1 hseq _),
+    runStream_bind _ _ _ _ _ (decInt_of_legal ct b2 e2 hct _),
+    runStream_bind _ _ _ _ _ (decStr_of_legal name b3 e3 _)]
+  simp only [hfind, decodeMaybeCompressed_none _ _ _ _ hc]
+  rw [runStream_bind _ _ _ _ _ (decValue_of_legal arg b4 e4 fuel (by omega) _),
+    runStream_bind _ _ _ _ _ (loadContext_legal fuel (l - 1 - 4) tags bt rest hl (by omega)
+      (fun h => by have := h0 h; omega) (fun h => by have := h1 h; omega))]
+  simp
+
+theorem decodeRPC_resp (ctx : Ctx) (fuel l : Nat) (seq ct : Int) (e : Bytes) (res : Value)
+    (b rest : Bytes)
+    (hl : LegalEncList [.int 1, .int seq, .str e, res] b)
+    (hf : b.length ≤ fuel) (hlook : lookupCall ctx.pending seq = some (ct, true))
+    (hc : hasCompressor ct = false)
+    (hseq : -9223372036854775808 ≤ seq ∧ seq < 9223372036854775808)
+    (hl4 : 4 ≤ l) :
+    runStream (decodeRPC ctx fuel l) (b ++ rest) =
+      ⟨.ok (.ok (.resp seq (.str e) res)), rest⟩ := by
+  cases hl with
+  | cons _ _ b0 _ e0 hl =>
+  cases hl with
+  | cons _ _ b1 _ e1 hl =>
+  cases hl with
+  | cons _ _ b2 _ e2 hl =>
+  cases hl with
+  | cons _ _ b3 bt e3 hl =>
+  cases hl
+  simp only [List.length_append] at hf
+  simp only [List.append_assoc, List.nil_append]
+  unfold decodeRPC
+  rw [runStream_bind _ _ _ _ _ (decInt_of_legal 1 b0 e0 (by omega) _)]
+  simp only [Gen.methodCall, Gen.methodResponse, Gen.methodNotify, Gen.methodCancel,
+    Gen.methodCallCompressed, Int.reduceEq, if_true, if_false]
+  rw [if_neg (by omega), runStream_bind _ _ _ _ _ (decInt_of_legal seq b1 e1 hseq _)]
+  simp only [hlook]
+  rw [runStream_bind _ _ _ _ _ (decErrStr_of_legal e b2 e2 _)]
+  simp only [Bool.not_true, decodeMaybeCompressed_none _ _ _ _ hc]
+  rw [if_neg (by simp), runStream_bind _ _ _ _ _ (decValue_of_legal res b3 e3 fuel (by omega) _)]
+  simp
+
+theorem decodeRPC_notify (ctx : Ctx) (fuel l : Nat) (name : Bytes) (arg : Value)
+    (tags : Option Tags) (b rest : Bytes)
+    (hl : LegalEncList (.int 2 :: .str name :: arg :: tagElems tags) b)
+    (hf : b.length ≤ fuel) (hfind : findMethod ctx name = .ok ())
+    (hl3 : 3 ≤ l) (h0 : tags = none → l = 3) (h1 : tags ≠ none → 4 ≤ l) :
+    runStream (decodeRPC ctx fuel l) (b ++ rest) = ⟨.ok (.ok (.notify name arg tags)), rest⟩ := by
+  cases hl with
+  | cons _ _ b0 _ e0 hl =>
+  cases hl with
+  | cons _ _ b2 _ e2 hl =>
+  cases hl with
+  | cons _ _ b3 bt e3 hl =>
+  simp only [List.length_append] at hf
+  simp only [List.append_assoc]
+  unfold decodeRPC
+  rw [runStream_bind _ _ _ _ _ (decInt_of_legal 2 b0 e0 (by omega) _)]
+  simp only [Gen.methodCall, Gen.methodResponse, Gen.methodNotify, Gen.methodCancel,
+    Gen.methodCallCompressed, Int.reduceEq, if_true, if_false]
+  rw [if_neg (by omega), runStream_bind _ _ _ _ _ (decStr_of_legal name b2 e2 _)]
+  simp only [hfind]
+  rw [runStream_bind _ _ _ _ _ (decValue_of_legal arg b3 e3 fuel (by omega) _),
+    runStream_bind _ _ _ _ _ (loadContext_legal fuel (l - 1 - 2) tags bt rest hl (by omega)
+      (fun h => by have := h0 h; omega) (fun h => by have := h1 h; omega))]
+  simp
+
+theorem decodeRPC_cancel (ctx : Ctx) (fuel l : Nat) (seq : Int) (name : Bytes) (b rest : Bytes)
+    (hl : LegalEncList [.int 3, .int seq, .str name] b)
+    (hseq : -9223372036854775808 ≤ seq ∧ seq < 9223372036854775808)
+    (hl3 : 3 ≤ l) :
+    runStream (decodeRPC ctx fuel l) (b ++ rest) = ⟨.ok (.ok (.cancel seq name)), rest⟩ := by
+  cases hl with
+  | cons _ _ b0 _ e0 hl =>
+  cases hl with
+  | cons _ _ b1 _ e1 hl =>
+  cases hl with
+  | cons _ _ b2 _ e2 hl =>
+  cases hl
+  simp only [List.append_assoc, List.nil_append]
+  unfold decodeRPC
+  rw [runStream_bind _ _ _ _ _ (decInt_of_legal 3 b0 e0 (by omega) _)]
+  simp only [Gen.methodCall, Gen.methodResponse, Gen.methodNotify, Gen.methodCancel,
+    Gen.methodCallCompressed, Int.reduceEq, if_true, if_false]
+  rw [if_neg (by omega), runStream_bind _ _ _ _ _ (decInt_of_legal seq b1 e1 hseq _),
+    runStream_bind _ _ _ _ _ (decStr_of_legal name b2 e2 _)]
+  simp
+
+theorem nextFrame_legal (max : Nat) (ctx : Ctx) (pre body ex r : Bytes) (n : Nat) (fr : FrameRes)
+    (hn1 : 1 ≤ n) (hn : n ≤ 15)
+    (hpre : IntEnc ((1 + body.length : Nat) : Int) pre)
+    (hmax : 1 + body.length ≤ max) (hsmall : 1 + body.length < 2147483648)
+    (hex : ex.length ≤ body.length)
+    (hdec : runStream (decodeRPC ctx (1 + body.length) n) (body ++ r) = ⟨.ok fr, ex ++ r⟩) :
+    nextFrame max ctx (pre ++ UInt8.ofNat (0x90 + n) :: body ++ r) = ⟨fr, r⟩ := by
+  unfold nextFrame
+  rw [List.append_assoc, decInt32_legal _ pre hpre (by omega) _]
+  simp only []
+  have hlow : lenTooLow ((1 + body.length : Nat) : Int) = false := by
+    simp [lenTooLow, Gen.pktLenLow, Cmp.eval]; omega
+  have hhigh : lenTooHigh ((1 + body.length : Nat) : Int) max = false := by
+    simp [lenTooHigh, Gen.pktLenHigh, Cmp.eval]; omega
+  have hbyte : runFrame byte (1 + body.length) (UInt8.ofNat (144 + n) :: body ++ r) =
+      (⟨.ok (UInt8.ofNat (144 + n)), body ++ r⟩, body.length) := by
+    simp [byte, runFrame]
+  have hnb : (UInt8.ofNat (144 + n)).toNat = 144 + n := by
+    simp [UInt8.toNat_ofNat']; omega
+  have hrf := runFrame_of_runStream _ _ _ _ body.length hdec (by simp)
+  have hrem : body.length - ((body ++ r).length - (ex ++ r).length) = ex.length := by
+    simp; omega
+  rw [hrem] at hrf
+  rw [hlow, hhigh]
+  simp only [Bool.false_eq_true, if_false, Int.toNat_natCast, hbyte, hnb]
+  rw [if_neg (by simp; omega)]
+  simp only [Nat.add_sub_cancel_left, hrf]
+  simp [finishFrame]
 
 end FmpRpc
